@@ -95,6 +95,8 @@ pub struct ByteCodeGenerator {
     fnmap: HashMap<Symbol, usize>,
     globals: HashMap<Arc<mir::Value>, usize>, //index to Program.global_vals
     program: vm::Program,
+    /// Number of register frames that existed before the current program's first function.
+    frame_base: usize,
 }
 
 /// Option for scecifying the evaluation strategy of the function that uses `self`.
@@ -234,9 +236,17 @@ impl ByteCodeGenerator {
             .or_else(|| self.globals.get(v).map(|&v| v as Reg))
             .expect(format!("value {v} not found").as_str())
     }
-    fn find_upvalue(&self, upval: &Arc<mir::Value>) -> Reg {
-        self.vregister
-            .find_upvalue(upval)
+    /// Position of a captured value in the frame of the enclosing function `upper`.
+    ///
+    /// One register frame is pushed per function, in program order, and none is popped, so the
+    /// enclosing function's frame is found by its index. Searching the frames from the most
+    /// recent one would find the same-numbered argument of an unrelated function that happens
+    /// to have been generated in between (at another offset when its parameters are wider).
+    fn find_upvalue(&self, upval: &Arc<mir::Value>, upper: Option<usize>) -> Reg {
+        upper
+            .and_then(|i| self.vregister.0.get(self.frame_base + i))
+            .and_then(|frame| frame.find_keep(upval))
+            .or_else(|| self.vregister.find_upvalue(upval))
             .expect("failed to find upvalue")
     }
     fn prepare_function(
@@ -673,7 +683,7 @@ impl ByteCodeGenerator {
             }
             mir::Instruction::GetUpValue(i, ty) => {
                 let upval = &mirfunc.upindexes[i as usize];
-                let v = self.find_upvalue(upval);
+                let v = self.find_upvalue(upval, mirfunc.upperfn_i);
                 let size: TypeSize = Self::word_size_for_type(ty);
                 let ouv = mir::OpenUpValue {
                     pos: v as usize,
@@ -694,7 +704,7 @@ impl ByteCodeGenerator {
             }
             mir::Instruction::SetUpValue(dst, src, ty) => {
                 let upval = &mirfunc.upindexes[dst as usize];
-                let v = self.find_upvalue(upval);
+                let v = self.find_upvalue(upval, mirfunc.upperfn_i);
                 let size: TypeSize = Self::word_size_for_type(ty);
                 let ouv = mir::OpenUpValue {
                     pos: v as usize,
@@ -1416,6 +1426,7 @@ impl ByteCodeGenerator {
         (mirfunc.label.to_string(), func)
     }
     pub fn generate(&mut self, mir: Mir, config: Config) -> vm::Program {
+        self.frame_base = self.vregister.0.len();
         self.program.global_fn_table = mir
             .functions
             .iter()
